@@ -79,6 +79,15 @@ class Sys:
         ins(r'^<[SP] as (spawner::)?Spawner<(Self|A)>>::(spawn_future|sleep|spawn_actor)', self.m_spawner_dispatch)
         ins(r'^<AssertUnwindSafe<.*> as (futures::)?FutureExt>::catch_unwind$', lambda e, st, fr, t, a: VAgg(name='CatchUnwind', fields={('f', 0): a[0]}))
         ins(r'^tokio::spawn::<', self.m_tokio_spawn)
+        # the runtime hannibal::runtime::block_on builds (contract of tokio's runtime constructors: Runtime::new and
+        # Builder::new_multi_thread have worker threads of their own, new_current_thread runs every task on the thread
+        # that sits in block_on)
+        ins(r'^(tokio::runtime::)?Runtime::new$', lambda e, st, fr, t, a: S.ok(VAgg(name='TokioRuntime', extra={'flavor': 'multi_thread'})))
+        ins(r'^(tokio::runtime::)?Builder::new_current_thread$', lambda e, st, fr, t, a: VAgg(name='TokioRtBuilder', extra={'flavor': 'current_thread'}))
+        ins(r'^(tokio::runtime::)?Builder::new_multi_thread$', lambda e, st, fr, t, a: VAgg(name='TokioRtBuilder', extra={'flavor': 'multi_thread'}))
+        ins(r'^(tokio::runtime::)?Builder::(enable_all|enable_io|enable_time|thread_name|thread_stack_size|max_blocking_threads|worker_threads)(::<.*>)?$', self.m_rt_builder_opt)
+        ins(r'^(tokio::runtime::)?Builder::build$', self.m_rt_builder_build)
+        ins(r'^(tokio::runtime::)?Runtime::block_on::<', self.m_rt_block_on)
         ins(r'^async_std::task::spawn::<', self.m_rt_spawn('AsyncJoinHandle'))
         ins(r'^smol::spawn::<', self.m_rt_spawn('SmolTask'))
         ins(r'^Task::<.*>::detach$', self.m_smol_detach)
@@ -395,6 +404,8 @@ class Sys:
             join = S.mobj(st, 'join', result=None, finished=False, aborted=False)
             name = st.meta.get('next_task_name') or f"task{n}"
             st.meta['next_task_name'] = None
+            if any(tn == name for (tn, *_r) in st.meta.get('tasks', ())):
+                name = f"task{n}"          # (a name reserved for a spawn that did not happen must not be reused)
             oid = st.alloc(args[0])
             st.meta['tasks'] = st.meta.get('tasks', ()) + ((name, oid, 'ready', (), 'future'),)
             st.meta[('join_of', name)] = join
@@ -444,12 +455,33 @@ class Sys:
         join = S.mobj(st, 'join', result=None, finished=False, aborted=False)
         name = st.meta.get('next_task_name') or f"task{n}"
         st.meta['next_task_name'] = None
+        if any(tn == name for (tn, *_r) in st.meta.get('tasks', ())):
+            name = f"task{n}"          # (a name reserved for a spawn that did not happen must not be reused)
         oid = st.alloc(args[0])
         tasks = st.meta.get('tasks', ())
         st.meta['tasks'] = tasks + ((name, oid, 'ready', (), 'future'),)
         st.meta[('join_of', name)] = join
         st.event('spawn', name)
         return S.handle('JoinHandle', join, task=name)
+
+    def m_rt_builder_opt(self, e, st, fr, t, args):
+        if 'worker_threads' in (t.func or ''):
+            # worker_threads(n): n must be a literal >= 1; the flavor decides, the count does not matter for the contract
+            st.event('rt_worker_threads', _describe(args[1]) if len(args) > 1 else '')
+        return args[0]
+
+    def m_rt_builder_build(self, e, st, fr, t, args):
+        b = _load(e, st, peel(e, st, args[0])) if isinstance(args[0], VRef) else args[0]
+        if not (isinstance(b, VAgg) and b.name == 'TokioRtBuilder'):
+            return NotImplemented
+        return S.ok(VAgg(name='TokioRuntime', extra={'flavor': b.extra['flavor']}))
+
+    def m_rt_block_on(self, e, st, fr, t, args):
+        rt = _load(e, st, peel(e, st, args[0])) if isinstance(args[0], VRef) else args[0]
+        if not (isinstance(rt, VAgg) and rt.name == 'TokioRuntime'):
+            return NotImplemented
+        st.event('rt_block_on', rt.extra['flavor'])
+        return VSym('block_on_output', 'M')
 
     def m_tokio_sleep(self, e, st, fr, t, args):
         d = args[0]
@@ -745,6 +777,7 @@ class Sys:
                     ex = dict(o.extra)
                     ex['waiting'] = tuple(sorted(set(c['waiting']) | {fut.extra['deadline']}))
                     st.objs[clock] = VAgg(name=o.name, fields=o.fields, extra=ex)
+                    S.touch(st, clock, True)      # registering a deadline enables / changes the clock pseudo-task
                 block_on(st, clock)
                 return [(st, PENDING)]
             if fut.name == 'LockFuture':
@@ -800,10 +833,35 @@ class Sys:
         """Next<PollFn<Box<dyn FnMut>>>::poll -> call the boxed receive closure (channel.rs)"""
         raise Unsupported("StreamNext is polled through m_next_poll")
 
+    def progress(self, st):
+        pr = st.meta.get('progress')
+        if pr is None:
+            pr = S.mobj(st, 'progress', started=0, stopped=0)
+            st.meta['progress'] = pr
+        return pr
+
+    def note_progress(self, st, kind):
+        pr = st.meta.get('progress')
+        if pr is not None:
+            mset(st, pr, **{kind: mget(st, pr)[kind] + 1})
+
     def poll_user_leaf(self, st, ref, fut):
         e = self.eng
         kind = fut.extra['kind']
         n = fut.extra['n']
+        if kind == 'blockwait':
+            # a client that waits for the actor's progress WITHOUT yielding (std channel recv, Condvar, thread::sleep
+            # loop): it occupies its thread until the callback has run
+            pr = self.progress(st)
+            if mget(st, pr)[n] >= 1:
+                st.meta['thread_hog'] = None
+                st.event('block_done', n)
+                return [(st, ready(UNIT))]
+            if not st.meta.get('thread_hog'):
+                st.event('thread_blocked', n)
+            st.meta['thread_hog'] = True
+            block_on(st, pr)
+            return [(st, PENDING)]
         if kind == 'handle':
             msg = fut.fields[('f', 0)]
             pend = fut.extra.get('pend', 0)
@@ -816,6 +874,19 @@ class Sys:
                 s2.event('user_pending', kind, n, fut.extra.get('actor'), _describe(msg))
                 outs.append((s2, PENDING))
             mid = str((msg.extra or {}).get('id', '')) if isinstance(msg, VAgg) else ''
+            if mid.startswith('hang'):
+                # a handler that needs longer than any timeout: pending until it is abandoned
+                if not fut.extra.get('pend'):
+                    ex = dict(fut.extra)
+                    ex['pend'] = 1
+                    _store(e, st, ref, VAgg(name='leaf', fields=fut.fields, extra=ex))
+                    st.event('user_pending', kind, n, fut.extra.get('actor'), _describe(msg))
+                never = st.meta.get('never')
+                if never is None:
+                    never = S.mobj(st, 'never')
+                    st.meta['never'] = never
+                block_on(st, never)
+                return outs + [(st, PENDING)]
             if mid.startswith('panic'):
                 st.event('user_panic', kind, n, fut.extra.get('actor'), mid)
                 st.meta['panic_now'] = True
@@ -841,8 +912,17 @@ class Sys:
             self.run_started_script(st, fut)
             r = self.user_script.get(('started', n), 'ok')
             st.event('user_done', kind, n, fut.extra.get('actor'), r)
+            self.note_progress(st, 'started')
             return [(st, ready(ok(UNIT) if r == 'ok' else err(VAgg(name='BoxError', extra={'from': 'started'}))))]
         if kind == 'userfut':
+            pend = fut.extra.get('pend', 0)
+            if pend < self.user_script.get(('pending', kind), 0):
+                # the delayed_exec future suspends once
+                ex = dict(fut.extra)
+                ex['pend'] = pend + 1
+                _store(e, st, ref, VAgg(name='leaf', fields=fut.fields, extra=ex))
+                st.event('userfut_pending', n, mget(st, self.clock(st))['now'])
+                return [(st, PENDING)]
             st.event('userfut_run', n, mget(st, self.clock(st))['now'])
             return [(st, ready(UNIT))]
         if kind in ('stopped', 'stream', 'finished'):
@@ -855,6 +935,8 @@ class Sys:
                 st.event('user_pending', kind, n, fut.extra.get('actor'), '')
                 return [(st, PENDING)]
             st.event('user_done', kind, n, fut.extra.get('actor'), _describe(fut.fields.get(('f', 0))) if kind == 'stream' else '')
+            if kind == 'stopped':
+                self.note_progress(st, 'stopped')
             exd = dict(fut.extra)
             exd['done'] = True
             _store(e, st, ref, VAgg(name='leaf', fields=fut.fields, extra=exd))
@@ -868,7 +950,7 @@ class Sys:
         if fn is None:
             raise Unsupported(f"cannot resolve {path}")
         depth = len(st.frames)
-        e.push_call(st, fn, list(args))
+        e.push_call(st, fn, list(args), tsub=self.resolver.call_bindings(path, fn, None) or None)
         ny = st.meta.get('no_yield')
         st.meta['no_yield'] = True
         leaves = list(e.run(st, stop_depth=depth))
@@ -887,6 +969,11 @@ class Sys:
         if mid.startswith('ctxstop') and ctx is not None:
             r = self.sync_call(st, 'context::Context::<A>::stop', [VRef(ctx.root, ctx.path, False)])
             st.event('script_result', 'ctx.stop', self.describe_result(st, r))
+        elif mid.startswith('bcastu') and ctx is not None:
+            # broadcast of the unit message: reaches the children registered with add_child (message type `()`)
+            tag = 'u' + mid[6:]
+            self.sync_call(st, 'context::Context::<A>::send_to_children::<()>', [VRef(ctx.root, ctx.path, True), Msg.new(tag)])
+            st.event('script_result', 'send_to_children', tag)
         elif mid.startswith('bcast') and ctx is not None:
             tag = 'b' + mid[5:]
             self.sync_call(st, 'context::Context::<A>::send_to_children::<M>', [VRef(ctx.root, ctx.path, True), Msg.new(tag)])
@@ -981,12 +1068,12 @@ class Program:
         fn = self.sys.resolver.resolve(path)
         if fn is None:
             raise Unsupported(f"cannot resolve {path}")
-        return self.call_fn(st, fn, args, allow_fork)
+        return self.call_fn(st, fn, args, allow_fork, tsub=self.sys.resolver.call_bindings(path, fn, None) or None)
 
-    def call_fn(self, st, fn, args, allow_fork=False):
+    def call_fn(self, st, fn, args, allow_fork=False, tsub=None):
         e = self.eng
         depth = len(st.frames)
-        e.push_call(st, fn, list(args))
+        e.push_call(st, fn, list(args), tsub=tsub)
         ny = st.meta.get('no_yield')
         st.meta['no_yield'] = True
         leaves = list(e.run(st, stop_depth=depth))
@@ -1027,6 +1114,10 @@ class Program:
         st.meta['tasks'] = tuple(out)
 
     def runnable(self, st):
+        if st.meta.get('thread_hog') and getattr(self, 'thread_flavor', 'multi_thread') == 'current_thread':
+            # the runtime built by block_on has ONE thread and a task on it waits without yielding (a blocking wait):
+            # no other task of that runtime, and no timer of its time driver, can run
+            return []
         r = self._runnable_tasks(st)
         c = st.meta.get('clock')
         if c is not None:
@@ -1073,6 +1164,7 @@ class Program:
             st.meta[('frames', task)] = None
         else:
             st.meta['blocked_on'] = frozenset()
+            st.meta.pop('self_wake', None)
             e.push_call(st, POLL_ANY, [VAgg(name='Pin', fields={('f', 0): VRef(('obj', oid), (), True)}), VSym('cx')])
         for l in e.run(st, stop_depth=depth):
             if l.status == 'yield':
@@ -1158,7 +1250,7 @@ class Program:
             self.on_task_done(st, name, oid, res)
         else:
             b = tuple((o, self.version(st, o)) for o in sorted(st.meta.get('blocked_on', ())))
-            if not b:
+            if not b or st.meta.pop('self_wake', None):
                 # pending without a registered wake source: only the environment can unblock it -> keep it ready
                 self.set_task(st, name, status='ready')
             else:
@@ -1241,6 +1333,8 @@ class Program:
                 self.set_task(l, name, status='ready')
             else:
                 b = tuple((o, self.version(l, o)) for o in sorted(l.meta.get('blocked_on', ())))
+                if l.meta.pop('self_wake', None):
+                    b = ()
                 self.set_task(l, name, status='blocked' if b else 'ready', blocked=b)
             yield l
 
